@@ -20,8 +20,11 @@ type Layout struct {
 	NoFinalEOL  bool   // the last line of a reader has no line end
 	PerLineTabs bool   // every line picks, on its own, tabs or 8 blanks per level (same columns: a tab is 8 columns)
 	MixedBlank  bool   // white-space-only lines and the indentation of comment-only lines may mix tabs and blanks
-	R           *core.Rand
-	Stats       map[string]int // what was actually rendered (for evidence)
+	// PartialDedent: <<elseif>>, <<else>> and <<endif>> that follow a non-empty indented body are written at a
+	// column strictly between the body's column and the column of their <<if>> (sloppy but legal alignment)
+	PartialDedent bool
+	R             *core.Rand
+	Stats         map[string]int // what was actually rendered (for evidence)
 }
 
 // L0 is the canonical layout.
@@ -50,6 +53,9 @@ func RandomLayout(r *core.Rand) *Layout {
 		l.PerLineTabs = true
 	}
 	l.MixedBlank = r.Chance(1, 3)
+	if l.IndentIf && !l.PerLineTabs && !strings.Contains(l.Unit, "\t") && len(l.Unit) >= 2 {
+		l.PartialDedent = r.Chance(1, 3)
+	}
 	return l
 }
 
@@ -96,6 +102,9 @@ func (l *Layout) Dims() []string {
 	}
 	if l.MixedBlank && l.Filler > 0 {
 		d = append(d, "mixed-whitespace-on-blank-lines")
+	}
+	if l.PartialDedent {
+		d = append(d, "partial-dedent")
 	}
 	return d
 }
@@ -401,21 +410,47 @@ func (o *out) stmt(s *Stmt, depth int) {
 		if l.IndentIf {
 			bd = depth + 1
 		}
+		// sloppy marks the next closing line (elseif / else / endif) for a partial dedent; only after a
+		// non-empty body, so that the line before it is deeper
+		sloppy := func(prev *Clause) func() {
+			if !l.PartialDedent || prev == nil || len(prev.Body) == 0 || l.R == nil || !l.R.Bool() {
+				return func() {}
+			}
+			extra := strings.Repeat(" ", l.R.Range(1, len(l.Unit)-1))
+			at := len(o.lines)
+			return func() {
+				// the closing line is the last line emitted since `at` (fillers come before it)
+				if n := len(o.lines); n > at {
+					o.lines[n-1] = extra + o.lines[n-1]
+					l.stat("partial-dedent-closing-lines")
+				}
+			}
+		}
 		for i, c := range s.Clauses {
+			var prev *Clause
+			if i > 0 {
+				prev = s.Clauses[i-1]
+			}
 			switch {
 			case i == 0:
 				o.cmd(depth, "if "+l.osp()+l.Expr(c.Cond))
 			case c.Cond != nil:
 				o.filler(depth, "before-elseif")
+				fix := sloppy(prev)
 				o.cmd(depth, "elseif "+l.osp()+l.Expr(c.Cond))
+				fix()
 			default:
 				o.filler(depth, "before-else")
+				fix := sloppy(prev)
 				o.cmd(depth, "else")
+				fix()
 			}
 			o.body(c.Body, bd)
 		}
 		o.filler(depth, "before-endif")
+		fix := sloppy(s.Clauses[len(s.Clauses)-1])
 		o.cmd(depth, "endif")
+		fix()
 	case SSet:
 		op := s.Op
 		if op == "=" {
